@@ -245,7 +245,7 @@ def run(ctx):
 		exts = ['.fasta', '.fna', '.ffn', '.faa', '.frn', '.fa', '.gz', '.fastq', 'fa', 'fasta', '_fa', '.f', '']
 		for j in range(ctx.q(300, 5000)):
 			# file names only: a final component '.' / '..' (or all dots) denotes a directory, which pathlib would normalise away and the CLI rejects
-			mk = lambda: rng.choice('afstnqgz_-AF1') + ''.join(rng.choice(alpha) for _ in range(rng.randint(0, 6))) + rng.choice(exts) + rng.choice(['', '', '.gz', 'gz'])
+			mk = lambda: rng.choice('afstnqgz_-AF1') + ''.join(rng.choice(alpha) for _ in range(rng.randint(0, 6))) + (rng.choice(exts[:6]) if rng.random() < 0.35 else '') + rng.choice(exts) + rng.choice(['', '', '.gz', 'gz'])
 			names = [rng.choice(['', 'd/', 'a.b/c/']) + mk() for _ in range(rng.randint(1, 3))]
 			if rng.random() < 0.5:
 				sub({'kind': 'seqfiles', 'pos': names, 'lines': None, 'fmt': 'csv', 'g': []}, 'seqfiles-random')
